@@ -39,6 +39,7 @@ Fails(e) ==
          (IF Key(e, e.before) \in DOMAIN tmemoV /\ tmemoV[Key(e, e.before)] # e.x THEN {"InvPure"} ELSE {})
          \cup (IF e.before # e.after THEN {"ArgUnchanged"} ELSE {})
          \cup LiveFails(e)
+    [] e.op = "raises" -> {"QueryRaises"}     \* a query inside the documented domain (float64 array argument) raised
     [] OTHER -> {}
 
 Init == /\ tpos = 1 /\ tmemoI = Empty /\ tmemoV = Empty /\ thanded = Empty
